@@ -116,7 +116,27 @@ def _num(sname, key, params, params2=None):
     return d > 1e-6, f"{sname}({key}) defect {d:.3g} at params {list(map(float, params))}" + (f", {list(map(float, params2))}" if params2 else "")
 
 
+CQU_VARIANTS = {"cv=1": ([1, 0], [1]), "cv=0": ([1, 0], [0]), "2 controls cv=(0,1)": ([1, 2, 0], [0, 1]), "2 controls cv=(1,0), controls after target": ([2, 0, 1], [1, 0])}
+
+
+def _cqu(U, cw, cv):
+    return qp.ControlledQubitUnitary(U, wires=cw, control_values=cv, unitary_check=False) if "unitary_check" in qp.ControlledQubitUnitary.__init__.__code__.co_varnames else qp.ControlledQubitUnitary(U, wires=cw, control_values=cv)
+
+
+def _cqu_num(name, variant, vals):
+    """batched ControlledQubitUnitary against its per-element matrices on plain numbers"""
+    cw, cv = CQU_VARIANTS[variant]
+    order = sorted(cw)
+    Un = np.array([[[complex(vals.get(f"u{b}{r}{c}_re", 0.3 * (b + 1) - 0.2 * r), vals.get(f"u{b}{r}{c}_im", 0.1 * c - 0.4 * b)) for c in range(2)] for r in range(2)] for b in range(2)])
+    Mbn = np.asarray(qp.matrix(_cqu(Un, cw, cv), wire_order=order), dtype=complex)
+    d = max(float(np.max(np.abs(Mbn[b] - np.asarray(qp.matrix(_cqu(Un[b], cw, cv), wire_order=order), dtype=complex)))) for b in range(2))
+    return d > 1e-9, f"{name}: batched matrix differs from the per-element matrices by {d:.3g}"
+
+
 def replay(payload):
+    key = payload["key"]
+    if key.startswith("ControlledQubitUnitary["):
+        return _cqu_num(f"{payload['set']}:{key}", key[len("ControlledQubitUnitary["):-1], payload.get("values", {}))
     return _num(payload["set"], payload["key"], payload["params"], payload.get("params2"))
 
 
@@ -163,11 +183,9 @@ def work(item):
             Mb, Ms, U = v
 
             def rp(model):
-                vals = model.get("vars", {})
-                Un = np.array([[[complex(vals.get(f"u{b}{r}{c}_re", 0.3 * (b + 1) - 0.2 * r), vals.get(f"u{b}{r}{c}_im", 0.1 * c - 0.4 * b)) for c in range(2)] for r in range(2)] for b in range(2)])
-                Mbn = np.asarray(qp.matrix(cqu(Un), wire_order=order), dtype=complex)
-                d = max(float(np.max(np.abs(Mbn[b] - np.asarray(qp.matrix(cqu(Un[b]), wire_order=order), dtype=complex)))) for b in range(2))
-                return d > 1e-9, {"set": sname, "key": key, "params": [], "observed": f"{name}: batched matrix differs from the per-element matrices by {d:.3g}"}
+                vals = {k_: float(v_) for k_, v_ in model.get("vars", {}).items() if k_.startswith("u")}
+                ok, obs = _cqu_num(name, variant, vals)
+                return ok, {"set": sname, "key": key, "params": [], "values": vals, "observed": obs}
 
             return [obl.prove(S, f"{name}: batched matrix == stack of per-element matrices (symbolic unitary entries)", Mb, np.stack(Ms), replay=rp, signature=f"{sname}:{key}", twin=False)]
 
